@@ -76,3 +76,71 @@ package geometry
 //@   ret 9 let $s = ite(onSeg(seg.A, seg.B, other.A), param(seg.A, seg.B, other.A), ite(onSeg(seg.A, seg.B, other.B), param(seg.A, seg.B, other.B), 0)) ; $t = ite(onSeg(seg.A, seg.B, other.A), 0, ite(onSeg(seg.A, seg.B, other.B), 1, param(other.A, other.B, seg.A)))
 //@   ret 10 let $s = param(seg.A, seg.B, other.A) ; $t = 0
 //@   ret 13 let $s = t ; $t = u
+
+// ---------------------------------------------------------------- C18 / C11: processPoints
+
+//@ spec func zcross(a Point, b Point, c Point) real { (b.X-a.X)*(c.Y-b.Y) - (b.Y-a.Y)*(c.X-b.X) }
+// the neighbour selection of the code (cyclic successor and second successor)
+//@ spec func nxt(ps []Point, i int) Point { ite(i == len(ps)-1, ps[0], ps[i+1]) }
+//@ spec func nxt2(ps []Point, i int) Point { ite(i == len(ps)-1, ps[1], ite(i == len(ps)-2, ps[0], ps[i+2])) }
+//@ spec func turnCode(ps []Point, i int) real { zcross(ps[i], nxt(ps,i), nxt2(ps,i)) }
+//@ spec func trapTerm(ps []Point, i int) real { (nxt(ps,i).X - ps[i].X) * (nxt(ps,i).Y + ps[i].Y) }
+//@ spec func hasNegCode(ps []Point, k int) bool rec { k > 0 && (hasNegCode(ps,k-1) || turnCode(ps,k-1) < 0) }
+//@ spec func hasPosCode(ps []Point, k int) bool rec { k > 0 && (hasPosCode(ps,k-1) || turnCode(ps,k-1) > 0) }
+//@ spec func trapCode(ps []Point, k int) real rec { ite(k <= 0, 0, trapCode(ps,k-1) + trapTerm(ps,k-1)) }
+//@ spec func extend(r Rect, p Point) Rect { mkRect(mkPoint(min(r.Min.X,p.X), min(r.Min.Y,p.Y)), mkPoint(max(r.Max.X,p.X), max(r.Max.Y,p.Y))) }
+//@ spec func bboxOf(ps []Point, k int) Rect rec { ite(k <= 1, mkRect(ps[0], ps[0]), extend(bboxOf(ps,k-1), ps[k-1])) }
+//@ spec func pow53() real { 9007199254740992 }
+
+// ---- property-level definitions (C18): the cyclic sequence of the m distinct ring positions
+//@ spec func ringM(ps []Point) int { ite(len(ps) >= 2 && ps[len(ps)-1] == ps[0], len(ps)-1, len(ps)) }
+//@ spec func cyc(ps []Point, m int, k int) Point { ite(k < m, ps[k], ps[k-m]) }
+//@ spec func turnP(ps []Point, m int, k int) real { zcross(cyc(ps,m,k), cyc(ps,m,k+1), cyc(ps,m,k+2)) }
+//@ spec func hasNegP(ps []Point, m int, k int) bool rec { k > 0 && (hasNegP(ps,m,k-1) || turnP(ps,m,k-1) < 0) }
+//@ spec func hasPosP(ps []Point, m int, k int) bool rec { k > 0 && (hasPosP(ps,m,k-1) || turnP(ps,m,k-1) > 0) }
+// trapezoid form of the shoelace sum over the m cyclic edges v(k-1)->v(k):  = -2 * signed area
+//@ spec func trapP(ps []Point, m int, k int) real rec { ite(k <= 0, 0, trapP(ps,m,k-1) + (cyc(ps,m,k).X - cyc(ps,m,k-1).X) * (cyc(ps,m,k).Y + cyc(ps,m,k-1).Y)) }
+
+// code-level folds agree with the property-level folds: ring given WITHOUT a repeated closing vertex (m == n)
+//@ lemma bridgeOpen(ps []Point, k int)
+//@   props C18
+//@   requires len(ps) >= 3 && ps[len(ps)-1] != ps[0] && 0 <= k && k <= len(ps)
+//@   ensures Neg: hasNegCode(ps,k) == hasNegP(ps,len(ps),k)
+//@   ensures Pos: hasPosCode(ps,k) == hasPosP(ps,len(ps),k)
+//@   ensures Trap: trapCode(ps,k) == trapP(ps,len(ps),k)
+//@   induction k
+
+// ring given WITH the repeated closing vertex (m == n-1): folds agree up to m ...
+//@ lemma bridgeClosed(ps []Point, k int)
+//@   props C18
+//@   requires len(ps) >= 3 && ps[len(ps)-1] == ps[0] && 0 <= k && k <= len(ps)-1
+//@   ensures Neg: hasNegCode(ps,k) == hasNegP(ps,len(ps)-1,k)
+//@   ensures Pos: hasPosCode(ps,k) == hasPosP(ps,len(ps)-1,k)
+//@   ensures Trap: trapCode(ps,k) == trapP(ps,len(ps)-1,k)
+//@   induction k
+// ... and the last code triple / edge (at the duplicate point) contributes nothing
+//@ lemma bridgeClosedLast(ps []Point)
+//@   props C18
+//@   requires len(ps) >= 3 && ps[len(ps)-1] == ps[0]
+//@   ensures Neg: hasNegCode(ps,len(ps)) == hasNegCode(ps,len(ps)-1)
+//@   ensures Pos: hasPosCode(ps,len(ps)) == hasPosCode(ps,len(ps)-1)
+//@   ensures Trap: trapCode(ps,len(ps)) == trapCode(ps,len(ps)-1)
+
+//@ func processPoints
+//@   props C18 C11
+//@   requires ExactSums: forall k int :: 0 <= k && k < len(points) ==> abs(trapCode(points,k) + trapTerm(points,k)) < pow53()
+//@   ensures Empty: ((closed && len(points) < 3) || len(points) < 2) ==> (!convex && !clockwise && rect == mkRect(mkPoint(0,0), mkPoint(0,0)))
+//@   ensures ConvexCode: !((closed && len(points) < 3) || len(points) < 2) ==> convex == !(hasNegCode(points, len(points)) && hasPosCode(points, len(points)))
+//@   ensures ClockwiseCode: !((closed && len(points) < 3) || len(points) < 2) ==> clockwise == (trapCode(points, len(points)) > 0)
+//@   ensures Convex: closed && len(points) >= 3 ==> convex == !(hasNegP(points, ringM(points), ringM(points)) && hasPosP(points, ringM(points), ringM(points)))
+//@   ensures Clockwise: closed && len(points) >= 3 ==> clockwise == (trapP(points, ringM(points), ringM(points)) > 0)
+//@   ensures Rect: !((closed && len(points) < 3) || len(points) < 2) ==> rect == bboxOf(points, len(points))
+//@   ret use bridgeOpen(points, len(points))
+//@   ret use bridgeClosed(points, len(points)-1)
+//@   ret use bridgeClosedLast(points)
+//@   loop 0 invariant Range: 0 <= i && i <= len(points) && len(points) >= 2
+//@   loop 0 invariant Box: i > 0 ==> rect == bboxOf(points, i) && rect.Min.X <= rect.Max.X && rect.Min.Y <= rect.Max.Y
+//@   loop 0 invariant Sum: cwc == trapCode(points, i)
+//@   loop 0 invariant Concave: concave == (hasNegCode(points,i) && hasPosCode(points,i))
+//@   loop 0 invariant Dir: !concave ==> ((dir == 0 && !hasNegCode(points,i) && !hasPosCode(points,i)) || (dir == 1 && hasPosCode(points,i) && !hasNegCode(points,i)) || (dir == -1 && hasNegCode(points,i) && !hasPosCode(points,i)))
+//@   loop 0 decreases len(points) - i
